@@ -385,6 +385,10 @@ func boundedWaitsOpt(c *an.Ctx, rule string, roots []*ssa.Function, what string,
 						continue
 					}
 				}
+				if op.OnVal != nil && (op.Kind == "send" || op.Kind == "recv") && chanAsLock(p, groupKey(op.OnVal)) {
+					c.OK(rule, key, op.Instr.Pos(), "%s is a buffered channel used as a lock: every send is followed on all paths by the receive that gives the slot back, and there is no other receive", op.On)
+					continue
+				}
 				if snd, ok := op.Instr.(*ssa.Send); ok && op.OnVal != nil && semaphorePaired(p, snd, groupKey(op.OnVal)) {
 					c.OK(rule, key, op.Instr.Pos(), "a slot taken from %s is handed to a goroutine, started on every path, that gives it back first thing (deferred receive)", op.On)
 					continue
@@ -793,4 +797,112 @@ func locallyWoken(p *an.Prog, in ssa.Instruction) string {
 		}
 	}
 	return ""
+}
+
+// chanAsLock recognises a buffered channel held in a field and used as a mutex: it is made with a constant capacity
+// of at least one, every send on it is followed, in the same function and on all paths to the exit, by a receive
+// from it (directly, or in a deferred function that receives on all its paths), and every receive is one of those.
+// Taking a slot then blocks only while another holder is between its send and its receive.
+func chanAsLock(p *an.Prog, key string) bool {
+	if key == "" || strings.HasPrefix(key, "local:") {
+		return false
+	}
+	isRecv := func(in ssa.Instruction) bool {
+		u, ok := in.(*ssa.UnOp)
+		return ok && u.Op == token.ARROW && groupKey(u.X) == key
+	}
+	recvOnAllPaths := func(fn *ssa.Function) bool {
+		if fn == nil || len(fn.Blocks) == 0 || len(fn.Blocks[0].Instrs) == 0 {
+			return false
+		}
+		first := fn.Blocks[0].Instrs[0]
+		if isRecv(first) {
+			return true
+		}
+		ok, _ := an.OnAllPathsToExit(first, isRecv, nil)
+		return ok
+	}
+	releases := func(x ssa.Instruction) bool {
+		if isRecv(x) {
+			return true
+		}
+		if d, ok := x.(*ssa.Defer); ok {
+			callees := p.Callees(&d.Call)
+			for _, callee := range callees {
+				if !recvOnAllPaths(callee) {
+					return false
+				}
+			}
+			return len(callees) > 0
+		}
+		return false
+	}
+	nSend, nMake := 0, 0
+	paired := map[ssa.Instruction]bool{} // receives accounted for
+	ok := true
+	for _, fn := range p.Funcs {
+		if !an.InModule(fn) || fn.Blocks == nil {
+			continue
+		}
+		an.EachInstr(fn, func(in ssa.Instruction) {
+			switch x := in.(type) {
+			case *ssa.Send:
+				if groupKey(x.Chan) != key {
+					return
+				}
+				nSend++
+				if rel, _ := an.OnAllPathsToExit(x, releases, an.IsPanicExit); !rel {
+					ok = false
+				}
+				// the receives this send pays for: those it dominates in its function, and those of the deferred functions
+				an.EachInstr(fn, func(y ssa.Instruction) {
+					if isRecv(y) && an.Dominates(x, y) {
+						paired[y] = true
+					}
+					if d, isD := y.(*ssa.Defer); isD && an.Dominates(x, y) {
+						for _, callee := range p.Callees(&d.Call) {
+							an.EachInstr(callee, func(z ssa.Instruction) {
+								if isRecv(z) {
+									paired[z] = true
+								}
+							})
+						}
+					}
+				})
+			case *ssa.Store:
+				if fa, isFA := x.Addr.(*ssa.FieldAddr); isFA && an.FieldKey(fa) == key {
+					mk, isMk := x.Val.(*ssa.MakeChan)
+					if !isMk {
+						ok = false
+						return
+					}
+					if k, isK := an.ConstInt(mk.Size); !isK || k < 1 {
+						ok = false
+						return
+					}
+					nMake++
+				}
+			case *ssa.Select:
+				for _, stt := range x.States {
+					if groupKey(stt.Chan) == key {
+						ok = false
+					}
+				}
+			}
+		})
+	}
+	if !ok || nSend == 0 || nMake == 0 {
+		return false
+	}
+	for _, fn := range p.Funcs {
+		if !an.InModule(fn) || fn.Blocks == nil {
+			continue
+		}
+		an.EachInstr(fn, func(in ssa.Instruction) {
+			if isRecv(in) && !paired[in] {
+				ok = false
+			}
+		})
+	}
+	return ok
 }
